@@ -1268,6 +1268,38 @@ func (s *BgpServer) processOutgoingPaths(peer *peer, paths, olds []*table.Path) 
 	return outgoing
 }
 
+// addPathTakeFreedSlots returns the paths that were held back by ADD-PATH
+// send-max and can be advertised in place of the withdrawals (one per freed
+// slot and destination). A full table transfer counts the slots before its
+// own withdrawals free them, so what it withdraws would otherwise leave a
+// slot empty although a path is waiting for it.
+func (s *BgpServer) addPathTakeFreedSlots(peer *peer, withdrawals []*table.Path) []*table.Path {
+	rib := s.globalRib
+	if peer.isRouteServerClient() {
+		rib = s.rsRib
+	}
+	promoted := make([]*table.Path, 0)
+	for _, w := range withdrawals {
+		if !peer.isAddPathSendEnabled(w.GetFamily()) {
+			continue
+		}
+		destination := rib.GetDestination(w)
+		if destination == nil {
+			continue
+		}
+		for _, p := range destination.GetKnownPathList(peer.TableID(), peer.AS()) {
+			p := s.filterpath(peer, p, nil)
+			if p == nil || !peer.isPathSendMaxFiltered(p) {
+				continue
+			}
+			peer.unsetPathSendMaxFiltered(p)
+			promoted = append(promoted, p)
+			break
+		}
+	}
+	return promoted
+}
+
 func (s *BgpServer) handleRouteRefresh(peer *peer, e *fsmMsg) {
 	m := e.MsgData.(*bgp.BGPMessage)
 	rr := m.Body.(*bgp.BGPRouteRefresh)
@@ -1304,6 +1336,7 @@ func (s *BgpServer) handleRouteRefresh(peer *peer, e *fsmMsg) {
 			withdrawals = append(withdrawals, path.Clone(true))
 		}
 		paths = append(withdrawals, paths...)
+		paths = append(paths, s.addPathTakeFreedSlots(peer, withdrawals)...)
 		if len(paths) > 0 {
 			peer.updateRoutes(paths...)
 			sendfsmOutgoingMsg(peer, paths)
@@ -3041,6 +3074,7 @@ func (s *BgpServer) softResetOut(addr string, family bgp.Family, deferral bool) 
 					withdrawals = append(withdrawals, path.Clone(true))
 				}
 				paths = append(withdrawals, paths...)
+				paths = append(paths, s.addPathTakeFreedSlots(peer, withdrawals)...)
 			}
 			if len(paths) > 0 {
 				if deferral {
